@@ -209,7 +209,18 @@ class PropCheck:
         # 3. cases: corpus first, then generated cases, processed chunk by chunk (bounded memory for the big exhaustive sets)
         if replay:
             ops = [l.rstrip('\n') for l in open(replay) if l.strip() and not l.startswith('#') and not l.startswith('case ')]
-            chunks = [[Case('replay', ops)]]
+            meta = {}
+            for l in open(replay):
+                if l.startswith('#meta '):
+                    try:
+                        meta = json.loads(l[6:])
+                    except ValueError:
+                        pass
+            cid = 'replay'
+            for l in open(replay):
+                if l.startswith('case ') and len(l.split()) == 2:
+                    cid = l.split()[1]; break
+            chunks = [[Case(cid, ops, meta)]]
         else:
             chunks = self.case_chunks()
         disagreements = []
